@@ -58,7 +58,7 @@ func callIntrinsic(fr *frame, fn *ssa.Function, args []value) (value, bool) {
 	tb := x.tb
 	if x.spec > 0 {
 		switch name {
-		case "zzvInt", "zzvIntIn", "zzvBool", "zzvChoice", "zzvFloat", "zzvFloatIn", "zzvString", "zzvByteString", "zzvPrintable",
+		case "zzvInt", "zzvIntIn", "zzvBool", "zzvChoice", "zzvFloat", "zzvFloatIn", "zzvString", "zzvByteString", "zzvPrintable", "zzvWord",
 			"zzvAssume", "zzvKnown", "zzvKnownEnd", "zzvFreeze", "zzvUnfreeze", "zzvFloatMag", "zzvFloatRel", "zzvTokenDecoder", "zzvFill", "zzvAssertSame", "zzvAssertDisjoint", "zzvBodyChildren":
 			panic(specAbort{"intrinsic " + name + " in a speculative arm"})
 		}
@@ -94,6 +94,12 @@ func callIntrinsic(fr *frame, fn *ssa.Function, args []value) (value, bool) {
 		n := asInt64(x.concretize(args[0], "max length"))
 		sv := x.nondet("string", types.String, smt.Str)
 		x.assume(tb.InRe(sv.t, fmt.Sprintf(`((_ re.loop 0 %d) (re.union (re.range " " "~") (str.to_re "\u{9}") (str.to_re "\u{a}")))`, n)))
+		return sv, true
+	case "zzvWord":
+		// a symbolic word: 1..n lower-case letters
+		n := asInt64(x.concretize(args[0], "max length"))
+		sv := x.nondet("string", types.String, smt.Str)
+		x.assume(tb.InRe(sv.t, fmt.Sprintf(`((_ re.loop 1 %d) (re.range "a" "z"))`, n)))
 		return sv, true
 	case "zzvByteString":
 		// bounded byte-sequence string: length forked in [0,L], bytes symbolic
